@@ -554,6 +554,46 @@ def k_batch(ctx: Ctx):
                 ctx.case(("batch", name, a, b), nontrivial=(a >= 1 and b >= 1), sample={"entry": name, "numOps": a, "numStates": b, "model": m} if (a, b) == (3, 1) else None)
                 if real != want or not path_ok:
                     ctx.disagree(f"batch:{name}", {"numOps": a, "numStates": b}, f"{real} paths={paths}", m)
+                # the same shape with batch entries that are one and the same Python object (`[s] * N`, one reference appended
+                # several times, the same Operator at several positions): the documented pairing is by position and content,
+                # never by object identity
+                if a >= 2 or b >= 2:
+                    opat, spat = alias_pattern(rng, a), alias_pattern(rng, b)
+                    if opat == list(range(a)) and spat == list(range(b)):
+                        if b >= 2 and (a < 2 or rng.random() < 0.6):
+                            spat = [0] * b
+                        else:
+                            opat = [0] * a
+                    oobj = {c: op_i(c) for c in set(opat)}
+                    sobj = {c: basis_state(rng, n, c, ep["be"]) for c in set(spat)}
+                    oa_ = [oobj[c] for c in opat]
+                    sa_ = [sobj[c] for c in spat]
+                    try:
+                        rs = list(ep["conc"](tuple(oa_) if rng.random() < 0.3 else oa_, tuple(sa_) if rng.random() < 0.3 else sa_))
+                        pairs, bad = [], None
+                        for r in rs:
+                            v = complex(r.value)
+                            k = round(v.real)
+                            if abs(v.real - k) > 1e-9 or abs(v.imag) > 1e-9 or r.error != 0.0:
+                                bad = f"value {v!r} error {r.error!r}"
+                                break
+                            pairs.append((k // 16 - 1, k % 16))
+                        real2 = bad or "ok:" + ",".join(f"{i}.{j}" for i, j in pairs)
+                    except Exception as e:  # noqa: BLE001
+                        real2 = "err:" + batch_err_kind(e)
+                    doc2 = doc
+                    if doc.startswith("ok:"):
+                        doc2 = "ok:" + ",".join(f"{opat[int(i)]}.{spat[int(j)]}" for i, j in (x.split(".") for x in doc[3:].split(",")))
+                    ctx.traces += 1
+                    ctx.count("batch.aliased", ("ops " if opat != list(range(a)) else "") + ("states" if spat != list(range(b)) else ""))
+                    ctx.case(("batch-aliased", name, a, b, tuple(opat), tuple(spat)), nontrivial=(a >= 1 and b >= 1))
+                    if real2 != doc2:
+                        ctx.witness(f"batch-aliased:{name}", f"{name}: {a} operators x {b} states, some entries being one and the same object, "
+                                    "is not handled as documented (one estimate per position: 1:N, N:1, N:N)",
+                                    {"kind": "batch-aliased", "entry": name, "numOps": a, "numStates": b,
+                                     "operator_entry_is_object_number": opat, "state_entry_is_object_number": spat,
+                                     "operators": "object c = (16(c+1)+3.5) I - 0.5 Z0 - Z1 - 2 Z2", "states": "object c = basis state |c> on 3 qubits"},
+                                    {"real (operator.state per estimate)": real2, "documented": doc2})
     finally:
         for (mod, name), orig in saved.items():
             setattr(mod, name, orig)
@@ -570,8 +610,24 @@ def run_session(ctx: Ctx, rng, be, lst, n, calls):
     for kind, os_, ss in calls:
         cands = [(nm, ep) for nm, ep in lst if (kind == "one") or ep["kind"] == kind]
         nm, ep = rng.choice(cands)
-        rops = [real_est(rng, e) for e in os_]
-        rstates = [basis_state(rng, n, b, be) for _, b in ss]
+        # equal entries of a batch are, at random, one and the same Python object or equal but distinct objects
+        share = rng.random() < 0.6
+        omade, smade = {}, {}
+        rops = []
+        for e in os_:
+            k_ = enc_est(e)
+            if not (share and k_ in omade):
+                omade[k_] = real_est(rng, e)
+                rops.append(omade[k_])
+            else:
+                rops.append(omade[k_])
+        rstates = []
+        for _, b in ss:
+            if not (share and b in smade):
+                smade[b] = basis_state(rng, n, b, be)
+            rstates.append(smade[b])
+        if share and (len(set(map(id, rops))) < len(rops) or len(set(map(id, rstates))) < len(rstates)):
+            ctx.count(f"session.{be}", "aliased-batch")
         try:
             if kind == "one":
                 if ep.get("one_is_conc"):
@@ -632,6 +688,8 @@ def k_sessions(ctx: Ctx):
                 a, b = {"1:N": (1, k), "N:1": (k, 1), "N:N": (k, k), "1:1": (1, 1), "bad": rng.choice([(0, 1), (1, 0), (0, 0), (2, 3), (3, 2)])}[shape]
                 os_ = [rng.choice(pool) for _ in range(a)]
                 ss = [(n, rng.randrange(2**n)) for _ in range(b)]
+                if b > 1 and rng.random() < 0.3:
+                    ss = [ss[0]] * b  # the same state at every position
             if last and rng.random() < 0.15 and os_:
                 os_[-1] = ("O", [(((n + rng.randint(0, 1), 3),), (16, 0))])  # IndexError ends the session
             calls.append((kind, os_, ss))
@@ -1301,6 +1359,45 @@ def tol(terms):
     return 1e-9 * (1.0 + sum(abs(cplx(c)) for _, c in terms))
 
 
+def alias_pattern(rng, k):
+    """which entries of a batch of k are one and the same item: class ids in first-occurrence order
+    (all distinct / all the same, as in `[x] * k` / some repeated, as when one reference is appended several times)"""
+    r = rng.random()
+    if k < 2 or r < 0.55:
+        return list(range(k))
+    if r < 0.8:
+        return [0] * k
+    pat, nxt = [], 0
+    for _ in range(k):
+        if pat and rng.random() < 0.5:
+            pat.append(rng.choice(pat))
+        else:
+            pat.append(nxt)
+            nxt += 1
+    return pat
+
+
+def build_aliased(rng, items, make):
+    """real objects for a batch given as plain data. Entries given by the same plain-data object become either one and the
+    same Python object or equal but distinct objects (decided per batch); returns (objects, index of the first entry that
+    is the identical object) — results must depend on the objects' content only, never on their identity"""
+    share = rng.random() < 0.7
+    made, out, ids = {}, [], []
+    for it in items:
+        if share and id(it) in made:
+            obj = made[id(it)]
+        else:
+            obj = make(it)
+            made.setdefault(id(it), obj)
+        out.append(obj)
+        ids.append(next(i for i, o in enumerate(out) if o is obj))
+    return out, ids
+
+
+def same_as(items):
+    return [next(j for j, y in enumerate(items) if y is x) for x in items]
+
+
 def numeric_case(ctx: Ctx, rng, eps):
     """one random batch through every applicable variant; returns the number of comparisons"""
     n = rng.randint(1, 4)
@@ -1327,12 +1424,18 @@ def numeric_case(ctx: Ctx, rng, eps):
                     ops[i] = ("L", terms[0][0])
                     continue
                 ops[i] = ("O", terms)
-    sspecs = []
-    for _ in range(b):
+    if a > 1:
+        # the same operator item at several positions (may become one and the same Operator object)
+        opat = alias_pattern(rng, a)
+        ops = [ops[opat.index(c)] for c in opat]
+    distinct = []
+    spat = alias_pattern(rng, b)
+    for _ in range(max(spat) + 1):
         sp = dict(n=n, gates=rand_gates(rng, n, rng.randint(0, 8), clifford), vec=None)
         if not clifford and rng.random() < 0.4:
             sp["vec"] = rand_vector(rng, n)
-        sspecs.append(sp)
+        distinct.append(sp)
+    sspecs = [distinct[c] for c in spat]
     return numeric_eval(ctx, rng, eps, n, ops, sspecs, shape, clifford)
 
 
@@ -1348,16 +1451,19 @@ def numeric_eval(ctx: Ctx, rng, eps, n, ops, sspecs, shape, clifford, sparse_ok=
         si = 0 if b == 1 else i
         want.append(c04ref.expectation([(l, cplx(c)) for l, c in est_terms(ops[oi])], sspecs[si]))
     tl = max(tol(est_terms(o)) for o in ops)
-    inp = {"kind": "numeric", "n": n, "ops": [enc_est(o) for o in ops], "states": sspecs, "shape": shape, "clifford": clifford}
+    inp = {"kind": "numeric", "n": n, "ops": [enc_est(o) for o in ops], "states": sspecs, "shape": shape, "clifford": clifford,
+           "op_same_item_as": same_as(ops), "state_same_item_as": same_as(sspecs)}
     cmp = 0
     for ep in eps.values():
         ep["cache"]._operator_cache.clear()  # the batch is self-contained: its own call sequence is the only history
     for name, ep in eps.items():
         if ep["be"] == "stim" and not clifford:
             continue
-        rops = [real_est(rng, o) for o in ops]
+        rops, oids = build_aliased(rng, ops, lambda o: real_est(rng, o))
+        sids = None
         try:
-            rstates = [real_state(rng, sp, compiled=(rng.random() < 0.3), vector_class_ok=(ep["be"] != "stim")) for sp in sspecs]
+            rstates, sids = build_aliased(rng, sspecs, lambda sp: real_state(rng, sp, compiled=(rng.random() < 0.3), vector_class_ok=(ep["be"] != "stim")))
+            ctx.count("numeric.identity", ("ops-aliased " if oids != list(range(a)) else "") + ("states-aliased" if sids != list(range(b)) else "") or "distinct-objects")
             # containers: list / tuple; the general estimators also take a bare operator and / or a bare state
             oarg = tuple(rops) if rng.random() < 0.25 else rops
             sarg = tuple(rstates) if rng.random() < 0.25 else rstates
@@ -1387,8 +1493,10 @@ def numeric_eval(ctx: Ctx, rng, eps, n, ops, sspecs, shape, clifford, sparse_ok=
         cmp += 1
         ctx.count("numeric.variant", name)
         if len(got) != len(want) or any(abs(g[0] - w) > tl or g[1] != 0.0 for g, w in zip(got, want)):
-            ctx.witness(f"wrong-value:{name}", f"{name} ({via}) differs from <psi|O|psi> (oracle) or reports a non-zero error",
-                        inp, {"got": str(got), "want": str(want), "tol": tl})
+            ctx.witness(f"wrong-value:{name}", f"{name} ({via}) differs from <psi|O|psi> (oracle), reports a non-zero error or returns "
+                        "another number of estimates than the batch shape documents", inp,
+                        {"got": str(got), "want": str(want), "tol": tl, "returned": len(got), "documented": len(want),
+                         "operator_entry_is_identical_object_as_entry": oids, "state_entry_is_identical_object_as_entry": sids})
     # the simulator's own evaluation of each state (vector, density matrix, marginal probabilities)
     for spc in sspecs:
         cmp += simulator_eval(ctx, rng, spc, inp)
@@ -1469,6 +1577,8 @@ def numeric_param_case(ctx: Ctx, rng, P):
     pvs = [[rng.uniform(-4, 4) for _ in range(nparams)] for _ in range(rng.randint(1, 3))]
     if rng.random() < 0.2:
         pvs[-1] = [rng.randint(-3, 3) for _ in range(nparams)]  # integer-typed parameter values
+    if rng.random() < 0.2:
+        pvs = [pvs[0]] * rng.randint(2, 3)  # one and the same parameter vector at every position of the batch
     want = [c04ref.expectation(terms, spec, p) for p in pvs]
     tl = tol(est_terms(o))
     inp = {"kind": "numeric-parametric", "n": n, "circuit": [kind, nparams, gates], "vec": vecinit, "op": enc_est(o), "params": pvs}
@@ -1549,11 +1659,12 @@ def numeric_param_case(ctx: Ctx, rng, P):
             continue
         try:
             st, tr = mk(rng.random() < 0.4)
-            qs = [tr(p) for p in pvs]
+            made_ = {}
+            qs = [made_.setdefault(id(p), tr(p)) for p in pvs]  # repeated vectors stay one object
             if not qs[0] and "general" in name:
                 continue
             r = rng.random()
-            parg = [pform(q) for q in qs] if r < 0.6 else (tuple(tuple(q) for q in qs) if r < 0.8 or not qs[0] else np.array(qs))
+            parg = qs if r < 0.25 else [pform(q) for q in qs] if r < 0.6 else (tuple(tuple(q) for q in qs) if r < 0.8 or not qs[0] else np.array(qs))
             rs = list(f(ro, st, parg))
             cmp += 1
             ctx.count("numeric.variant", name)
@@ -2083,7 +2194,18 @@ def wide_eval(ctx: Ctx, rng, inp, eps):
             e["cache"]._operator_cache.clear()
         try:
             rops = [real_est(rng, o) for o in ops]
-            sts = [state()] if (len(rops) == 1 or rng.random() < 0.6) else [state() for _ in rops]
+            r = rng.random()
+            if len(rops) == 1:
+                # 1:1, or 1:N with N references to one state object / N equal states
+                k_ = rng.choice([1, 2, 3])
+                one_ = state()
+                sts = [one_] * k_ if r < 0.6 else [one_] + [state() for _ in range(k_ - 1)]
+            elif r < 0.5:
+                sts = [state()]
+            elif r < 0.75:
+                sts = [state()] * len(rops)
+            else:
+                sts = [state() for _ in rops]
             got = [(complex(r.value), r.error) for r in ep["conc"](rops, sts)]
             if rng.random() < 0.3:
                 got1 = [(complex(r.value), r.error) for r in [ep["one"](ro, state()) for ro in rops]]
@@ -2094,9 +2216,11 @@ def wide_eval(ctx: Ctx, rng, inp, eps):
             ctx.witness(f"raises:{name}", f"{name} raises {exc_name(e)} on a valid input", inp, str(e)[:300])
             continue
         ctx.count("wide.variant", name)
-        if len(got) != len(want) or any(abs(g[0] - w) > tl or g[1] != 0.0 for g, w in zip(got, want)):
-            ctx.witness(f"wrong-value:{name}", f"{name} differs from the exact value on a product state of a wide register", inp,
-                        {"got": str(got), "want": str(want)})
+        wantk = want * len(sts) if len(rops) == 1 else want
+        if len(got) != len(wantk) or any(abs(g[0] - w) > tl or g[1] != 0.0 for g, w in zip(got, wantk)):
+            ctx.witness(f"wrong-value:{name}", f"{name} differs from the exact value on a product state of a wide register (or returns "
+                        "another number of estimates than the batch shape documents)", inp,
+                        {"got": str(got), "want": str(wantk), "numOps": len(rops), "numStates": len(sts), "state_entry_is_identical_object_as_entry": same_as(sts)})
     if n <= 12:
         psi = np.array([1.0 + 0j])
         for q in range(n):
@@ -2330,7 +2454,11 @@ def replay_file(ctx: Ctx, path):
                         g["um"] = [[complex(x) if not isinstance(x, str) else complex(x.replace(" ", "")) for x in row] for row in g["um"]]
                 if sp.get("vec") is not None:
                     sp["vec"] = [complex(x) if not isinstance(x, str) else complex(x.replace(" ", "")) for x in sp["vec"]]
-            numeric_eval(ctx, ctx.rng, eps, inp["n"], [dec_est(t) for t in inp["ops"]], inp["states"], inp["shape"], inp.get("clifford", False))
+            rops_ = [dec_est(t) for t in inp["ops"]]
+            osame = inp.get("op_same_item_as") or list(range(len(rops_)))
+            ssame = inp.get("state_same_item_as") or list(range(len(inp["states"])))
+            for _ in range(4):  # argument forms and object sharing are drawn per run
+                numeric_eval(ctx, ctx.rng, eps, inp["n"], [rops_[j] for j in osame], [inp["states"][j] for j in ssame], inp["shape"], inp.get("clifford", False))
             done += 1
         elif kind == "session":
             lst = [(nm, ep) for nm, ep in eps.items() if ep["be"] == inp["backend"]]
